@@ -775,6 +775,16 @@ func randPrice(rng *rand.Rand) tf.M {
 	if rng.Intn(3) == 0 {
 		return tf.M{"lit": literals[rng.Intn(len(literals))]}
 	}
+	if rng.Intn(3) == 0 {
+		// every binary band [2^k, 2^(k+1)) with a uniformly random mantissa (the tick conversion works on the
+		// position of the most significant bit: each band is its own case)
+		k := uint(rng.Intn(64))
+		v := uint64(1) << k
+		if k > 0 {
+			v += rng.Uint64() & (v - 1)
+		}
+		return tf.M{"lit": strconv.FormatUint(v, 10)}
+	}
 	// ticks whose price fits 1 .. 2^64-1: about -207243 .. 236190
 	var t int
 	switch rng.Intn(4) {
